@@ -370,7 +370,7 @@ func TestC18(t *testing.T) {
 		}
 		return
 	}
-	dl := vk.NewDeadline(vk.Pick(run, 12*time.Minute, 120*time.Minute))
+	dl := vk.NewDeadline(vk.Pick(run, 12*time.Minute, 45*time.Minute))
 	c18RoundTrips(t, run)
 	var cases []c18Case
 	maxP := vk.Pick(run, 3, 4)
